@@ -98,3 +98,31 @@ Proof.
         (conj enum_name_2d (conj emit_ni_flags_axi pick_bus_axi))))))).
 Qed.
 Print Assumptions C08_model_holds.
+
+(* Part 4: narrow-wide networks.  The narrow (wide) manager / subordinate side of an interface is the LAST bus of
+   that role whose protocol carries that type; the side's enable flag is set exactly when the role lists such a
+   protocol, independently for the two roles and the two types; the AXI ports of a side are bound to that bus or tied
+   off ('0 / open).  (What seed C08-mut4 broke: enables taken from the endpoint's roles instead of the side's ports.) *)
+Theorem C08_model_narrow_wide :
+  (forall d off x, d_nw d = true ->
+     let mn := pick_bus true "narrow" (cn_mgr_buses x) in let sn := pick_bus true "narrow" (cn_sbr_buses x) in
+     let mw := pick_bus true "wide" (cn_mgr_buses x) in let sw := pick_bus true "wide" (cn_sbr_buses x) in
+     ni_flags (emit_ni d off x) = [("ChimneyCfgN", (is_some sn, is_some mn)); ("ChimneyCfgW", (is_some sw, is_some mw))] /\
+     ni_axi (emit_ni d off x) = ni_bindings "axi_narrow_" mn sn ++ ni_bindings "axi_wide_" mw sw /\
+     ni_module (emit_ni d off x) = "floo_nw_chimney") /\
+  (forall kind l,
+     (pick_bus true kind l = None /\ forall b, In b l -> has_kind kind b = false) \/
+     (exists b pre post, pick_bus true kind l = Some b /\ l = pre ++ b :: post /\ has_kind kind b = true /\
+                         forall b', In b' post -> has_kind kind b' = false)) /\
+  (forall kind l, is_some (pick_bus true kind l) = existsb (has_kind kind) l).
+Proof. exact (conj emit_ni_flags_nw (conj pick_bus_nw nw_side_enabled)). Qed.
+Print Assumptions C08_model_narrow_wide.
+
+From FV Require Import Examples.
+Example C08_nw_nonvacuous :
+  match (do g <- build (ex_nw ID); do c <- compile (ex_nw ID) g; Ok c) with
+  | Ok c => existsb (fun x => is_some (pick_bus true "wide" (cn_mgr_buses x))) (c_nis c) &&
+            existsb (fun x => is_some (pick_bus true "narrow" (cn_sbr_buses x))) (c_nis c)
+  | Err _ => false
+  end = true.
+Proof. vm_compute. reflexivity. Qed.
